@@ -30,6 +30,7 @@ ENTRY_ROOTS = {
 def mk_interp(P):
     it = Interp(P)
     Lib(role_of).install(it)
+    install_source_summaries(it)
     return it
 
 
@@ -251,3 +252,172 @@ def describe_tail(it, root, kind, name, payload, outs, parser_ref, o):
         return None if ok else "a decoding error at offset p must become InvalidUtf8(p): got %s%r" % (vname, e.fields)
     ok = vname == src and tuple(e.fields) == tuple(payload)
     return None if ok else "the core's error %s%r is reported as %s%r" % (src, payload, vname, e.fields)
+
+
+# ---- the character source: where the parser's items ultimately come from ----------------------------------------------
+class Tag(tuple):
+    """Structured tag of an opaque value produced by one of the source summaries below."""
+
+
+def _res(v, it, st):
+    """Follow references to the value they point to (tags are compared on values, not on borrows)."""
+    for _ in range(4):
+        if isinstance(v, Ref):
+            try:
+                v = it.read_path(st, v.base, v.proj)
+            except Exception:  # noqa
+                return v
+        else:
+            break
+    return v
+
+
+def install_source_summaries(it):
+    """Opaque models of the std text APIs an entry point may use to turn its input into characters.  Every result is an
+    unknown value whose tag records the API and the (resolved) arguments, so that the rule can check the data flow:
+    bytes-of(x), chars-of(s), from_utf8(x) -> Ok(str-of(x)) | Err(utf8error-of(x)), valid_up_to(e), prefix(x, n)."""
+    P = it.p
+    S = it.summaries
+    path = lambda rx: (lambda inst, _rx=re.compile(rx): bool(_rx.search(inst["path"])))
+
+    def opaque(kind, nargs):
+        def fn(it_, st, inst, args, call):
+            return Top(summ.ret_ty(it_, call), Tag((kind,) + tuple(_res(a, it_, st) for a in args[:nargs])))
+        return fn
+
+    def slice_iter(it_, st, inst, args, call):
+        v = _res(args[0], it_, st)
+        if isinstance(v, Top):
+            return Top(summ.ret_ty(it_, call), Tag(("bytes-of", v)))
+        return NotImplemented
+
+    S.insert(0, (path(r"^core::slice::<impl \[T\]>::iter$"), slice_iter))
+    S.insert(0, (path(r"^core::str::<impl str>::chars$"), opaque("chars-of", 1)))
+    S.insert(0, (path(r"^core::str::<impl str>::as_bytes$"), opaque("as-bytes", 1)))
+
+    def from_utf8(it_, st, inst, args, call):
+        rt = summ.ret_ty(it_, call)
+        t = P.types[rt]
+        okty = t["variants"][0]["fields"][0]["ty"]
+        errty = t["variants"][1]["fields"][0]["ty"]
+        x = _res(args[0], it_, st)
+        if isinstance(x, Top) and isinstance(x.tag, Tag) and x.tag[0] == "prefix":
+            # the longest well-formed prefix reported by Utf8Error::valid_up_to is well-formed (std contract)
+            return Agg(rt, 0, (Top(okty, Tag(("str-of", x))),))
+        return [(st.copy(), Agg(rt, 0, (Top(okty, Tag(("str-of", x))),))), (st.copy(), Agg(rt, 1, (Top(errty, Tag(("utf8error-of", x))),)))]
+
+    S.insert(0, (path(r"^core::str::converts::from_utf8$|^std::str::from_utf8$|^core::str::<impl str>::from_utf8$"), from_utf8))
+    S.insert(0, (path(r"^core::str::converts::from_utf8_unchecked$|^std::str::from_utf8_unchecked$|^core::str::<impl str>::from_utf8_unchecked$"), opaque("str-of", 1)))
+    S.insert(0, (path(r"^core::str::Utf8Error::valid_up_to$|^std::str::Utf8Error::valid_up_to$|^core::str::error::Utf8Error::valid_up_to$"), opaque("valid_up_to", 1)))
+
+    def split_at(it_, st, inst, args, call):
+        rt = summ.ret_ty(it_, call)
+        x, n = _res(args[0], it_, st), _res(args[1], it_, st)
+        return Agg(rt, 0, (Top(None, Tag(("prefix", x, n))), Top(None, Tag(("suffix", x, n)))))
+
+    S.insert(0, (path(r"^core::slice::<impl \[T\]>::split_at$"), split_at))
+
+    def index_range_to(it_, st, inst, args, call):
+        x, r = _res(args[0], it_, st), _res(args[1], it_, st)
+        if isinstance(r, Agg) and len(r.fields) == 1:
+            return Top(summ.ret_ty(it_, call), Tag(("prefix", x, _res(r.fields[0], it_, st))))
+        return NotImplemented
+
+    S.insert(0, (lambda inst: bool(re.search(r"^core::slice::index::<impl std::ops::Index<I> for \[T\]>::index$", inst["path"])) and "RangeTo<usize>" in inst["name"] and "RangeToInclusive" not in inst["name"],
+                 index_range_to))
+    S.insert(0, (path(r"^std::io::Error::new$|^std::io::error::Error::new$|^std::io::Error::other$"), opaque("io-error", 0)))
+
+
+def peel_adaptors(P, v):
+    """Strip std::iter::Map layers: returns (innermost source value, [mapping function values], outermost first)."""
+    fns = []
+    while isinstance(v, Agg) and v.ty is not None and P.types[v.ty].get("name") == "std::iter::Map":
+        names = [f["name"] for f in P.types[v.ty]["variants"][0]["fields"]]
+        fld = dict(zip(names, v.fields))
+        fns.append(fld.get("f"))
+        v = fld.get("iter")
+    return v, fns
+
+
+def tyname(P, v):
+    return P.types[v.ty].get("name") if isinstance(v, Agg) and v.ty is not None else None
+
+
+def fields_of(P, v):
+    t = P.types[v.ty]
+    return dict(zip([f["name"] for f in t["variants"][v.variant]["fields"]], v.fields))
+
+
+def option_items(P, v):
+    """Items yielded by an `Option<T>::into_iter()` / `iter::once` value; None when the shape is not recognised."""
+    n = tyname(P, v)
+    if n == "std::iter::Once":
+        return option_items(P, v.fields[0])
+    if n == "std::option::IntoIter":
+        return option_items(P, v.fields[0])
+    if n == "std::option::Item":
+        return option_items(P, v.fields[0])
+    if n == "std::option::Option":
+        return [] if v.variant == 0 else [v.fields[0]]
+    return None
+
+
+def is_tag(v, kind):
+    return isinstance(v, Top) and isinstance(v.tag, Tag) and v.tag[0] == kind
+
+
+def describe_source(P, src, fns, kind, input_val):
+    """Classify the innermost character source of an entry point.  Returns (form, problem|None, info).
+    forms: 'str-chars' (all characters of the input string), 'caller-iterator', 'utf8-decode' (bytes of the input through
+    utf8_decode::Decoder), 'std-valid' / 'std-invalid' (the two paths of a core::str::from_utf8 based decoder)."""
+    def is_ok_ctor(f):
+        from .absint import FnItem
+        return isinstance(f, FnItem) and re.search(r"^std::result::Result::<char, .*>::Ok$", str(f.name if hasattr(f, "name") else f)) is not None
+
+    if kind == "iter":
+        if isinstance(src, Top) and src.tag == "input":
+            return "caller-iterator", None, {}
+        return "caller-iterator", "the parser does not pull from the caller's iterator itself: %r" % (src,), {}
+    if kind == "str":
+        if is_tag(src, "chars-of") and src.tag[1] == input_val:
+            return "str-chars", None, {}
+        return "str-chars", "the parser does not read str::chars() of the whole input: %r" % (src,), {}
+    # bytes
+    n = tyname(P, src)
+    if n == "utf8_decode::safe::Decoder":
+        b = src.fields[0]
+        if tyname(P, b) == "std::iter::Copied" and is_tag(b.fields[0], "bytes-of") and b.fields[0].tag[1] == input_val:
+            return "utf8-decode", None, {}
+        return "utf8-decode", "the decoder is not fed content.iter().copied() of the whole input: %r" % (b,), {}
+    if n == "std::iter::Chain":
+        f = fields_of(P, src)
+        a, b = f.get("a"), f.get("b")
+        if not (tyname(P, a) == "std::option::Option" and a.variant == 1):
+            return "std", "unrecognised first half of the chain: %r" % (a,), {}
+        inner, ifns = peel_adaptors(P, a.fields[0])
+        if len(ifns) != 1 or not is_ok_ctor(ifns[0]):
+            return "std", "the characters of the valid prefix must be mapped with Ok and nothing else (%r)" % (ifns,), {}
+        if not is_tag(inner, "chars-of"):
+            return "std", "the first half of the chain is not str::chars(): %r" % (inner,), {}
+        s = inner.tag[1]
+        tail = option_items(P, b.fields[0]) if tyname(P, b) == "std::option::Option" and b.variant == 1 else ([] if tyname(P, b) == "std::option::Option" else None)
+        if tail is None:
+            return "std", "unrecognised second half of the chain: %r" % (b,), {}
+        if not is_tag(s, "str-of"):
+            return "std", "the string whose characters are read is not the result of a UTF-8 validation: %r" % (s,), {}
+        origin = s.tag[1]
+        if origin == input_val:
+            # from_utf8(content) succeeded: all characters, no error item
+            if tail:
+                return "std-valid", "well-formed input is followed by an extra item %r" % (tail,), {}
+            return "std-valid", None, {}
+        if is_tag(origin, "prefix"):
+            whole, n_ = origin.tag[1], origin.tag[2]
+            ok = whole == input_val and is_tag(n_, "valid_up_to") and is_tag(n_.tag[1], "utf8error-of") and n_.tag[1].tag[1] == input_val
+            if not ok:
+                return "std-invalid", "the decoded prefix is not content[..e.valid_up_to()] of the validation error of the whole input: %r" % (origin,), {}
+            if len(tail) != 1 or not (isinstance(tail[0], Agg) and tyname(P, tail[0]) == "std::result::Result" and tail[0].variant == 1):
+                return "std-invalid", "ill-formed input must yield exactly one error item after the well-formed prefix, found %r" % (tail,), {}
+            return "std-invalid", None, {}
+        return "std", "the validated bytes are not the input: %r" % (origin,), {}
+    return "unknown", "unrecognised byte decoder %r" % (src,), {}
